@@ -92,7 +92,15 @@ def plan(prop, tier):
                 g(N=7, D=2, P=3, subs=1, depth=14, ops=("submit", "subscribe"))]
         gens += [sc(["subscribe", G, G, G, G], subs=1), sc([G, "subscribe", G, G, G, "subscribe"], subs=2, works=(1, 3)), sc([G, G, "subscribe", "clean", G, G], subs=1, D=1, P=2),
                  sc(["subscribe", G, G, G, G], subs=1, works=(1,), ties=True),
-                 sc(["subscribe", G, G, G], subs=1, N=3, D=3, P=2, S=(5000,), flags=["-realclean"], auto=2)]
+                 sc(["subscribe", G, G, G], subs=1, N=3, D=3, P=2, S=(5000,), flags=["-realclean"], auto=2),
+                 # chain, fork, fork of the fork, in every order and with every work assignment, one subscriber from the start
+                 sc(["subscribe", G, G, G, G, G], subs=1, N=5, D=5, P=5, shape=(0, 1, 1, 3, 3), works=(1, 3),
+                    scnum=600 if quick else 6000),
+                 # a Clean consolidates / prunes between the growth of a fork of a fork and the header that makes it best
+                 sc(["subscribe", G, G, G, "clean", G, G], subs=1, N=5, D=2, P=1, shape=(0, 1, 1, 3, 3), works=(1, 3),
+                    scnum=600 if quick else 6000),
+                 # a subscriber that registers after a Save (same repository object), then reorganisations
+                 sc([G, G, "save", "subscribe", G, G, "clean", G], subs=1, N=5, D=1, P=2)]
     elif prop == "C08":
         exh = [("core", 4, d, 2, 1) for d in (0, 1, 2)] + ([] if quick else [("core", 5, 1, 2, 1)])
         gens = [g(D=d, P=max(2, d), ops=("submit", "clean", "save"), flags=["-twin"], big=(400 if d == 1 else None),
